@@ -68,6 +68,17 @@ Fixpoint peval (t : tree) (U : tt) : res tt :=
   | Hybrid _ _ (Some _) _ => Panic PDomainLookup
   end.
 
+Lemma peval_unfold_hybrid o x a U :
+  peval (Hybrid o x None a) U =
+  if use_patterns sw && is_attractor_pattern (Hybrid o x None a) then
+    let* e := hctl_var_id G (pattern_var (Hybrid o x None a)) in attractors G U e
+  else if use_patterns sw && is_fixed_point_pattern (Hybrid o x None a) then Ok steady
+  else match o with
+       | Jump => let* r := peval a U in let* e := hctl_var_id G x in Ok (eval_jump G U r e)
+       | _ => let* r := peval a U in let* e := hctl_var_id G x in eval_hybrid_quantifier G U U o e r
+       end.
+Proof. destruct o; reflexivity. Qed.
+
 End PEval.
 
 (** plain formulae: no wild-cards, no domains *)
@@ -372,3 +383,86 @@ Proof.
 Qed.
 
 End Soundness.
+
+(** ---- eval_node with a context that marks no duplicates is peval ---- *)
+Section Link.
+Variable G : genv.
+Variable names : list str.
+Variable sw : switches.
+Variable steady : tt.
+
+Lemma bind_assoc_ok {A B} (r : res A) (c : B) :
+  (let* x := (let* y := r in Ok (y, c)) in Ok x) = (let* y := r in Ok (y, c)).
+Proof. destruct r; reflexivity. Qed.
+
+Theorem eval_node_nodup : forall t U c, plainf t -> duplicates c = [] ->
+  exists c', duplicates c' = [] /\
+    eval_node G names sw steady t U c =
+    bind (peval G names sw steady t U) (fun r => Ok (r, c')).
+Proof.
+  induction t as [a | o a IH | o a IHa b IHb | o x d a IH]; intros U c Hpl Hd.
+  - (* terminal *)
+    cbn [eval_node]. destruct (canonize (render (Terminal a))) as [canon ren].
+    rewrite Hd. cbn [amem alookup andb].
+    exists c. split; [assumption|].
+    cbn [peval is_attractor_pattern is_fixed_point_pattern]. rewrite !andb_false_r.
+    destruct a; cbn; try reflexivity;
+      try (destruct (index_of s names 0); reflexivity);
+      try (destruct (hctl_var_id G s); reflexivity).
+  - (* unary *)
+    cbn [eval_node]. destruct (canonize (render (Unary o a))) as [canon ren].
+    rewrite Hd. cbn [amem alookup andb].
+    cbn [peval is_attractor_pattern is_fixed_point_pattern]. rewrite !andb_false_r.
+    destruct (IH U c Hpl Hd) as [c1 [Hd1 E1]]. rewrite E1.
+    exists c1. split; [assumption|].
+    destruct (peval G names sw steady a U) as [A| | |]; cbn; try reflexivity;
+      destruct o; cbn; reflexivity.
+  - (* binary *)
+    destruct Hpl as [Hpa Hpb].
+    cbn [eval_node]. destruct (canonize (render (Binary o a b))) as [canon ren].
+    rewrite Hd. cbn [amem alookup andb].
+    cbn [peval is_attractor_pattern is_fixed_point_pattern]. rewrite !andb_false_r.
+    destruct (IHa U c Hpa Hd) as [c1 [Hd1 E1]]. rewrite E1.
+    destruct (IHb U c1 Hpb Hd1) as [c2 [Hd2 E2]].
+    exists c2. split; [assumption|].
+    destruct (peval G names sw steady a U) as [A| | |]; cbn; try reflexivity.
+    rewrite E2.
+    destruct (peval G names sw steady b U) as [B| | |]; cbn; try reflexivity;
+      destruct o; cbn; reflexivity.
+  - (* hybrid *)
+    destruct Hpl as [-> Hpa].
+    cbn [eval_node]. destruct (canonize (render (Hybrid o x None a))) as [canon ren].
+    rewrite Hd. cbn [amem alookup andb].
+    rewrite (peval_unfold_hybrid G names sw steady o x a U).
+    destruct (use_patterns sw && is_attractor_pattern (Hybrid o x None a)) eqn:PA.
+    { exists c. split; [assumption|].
+      destruct (hctl_var_id G (pattern_var (Hybrid o x None a))); cbn; try reflexivity;
+        match goal with |- context [attractors ?g ?u ?e] => destruct (attractors g u e) end; reflexivity. }
+    destruct (use_patterns sw && is_fixed_point_pattern (Hybrid o x None a)) eqn:PF.
+    { exists c. split; [assumption|]. reflexivity. }
+    destruct o.
+    + (* bind *)
+      set (c0 := set_free c (sinsert x None (free_doms c))).
+      destruct (IH U c0 Hpa Hd) as [c1 [Hd1 E1]]. rewrite E1.
+      exists (set_free c1 (aremove str_eqb x (free_doms c1))). split; [assumption|].
+      destruct (peval G names sw steady a U) as [A| | |]; cbn; try reflexivity;
+        destruct (hctl_var_id G x); reflexivity.
+    + (* jump *)
+      destruct (IH U c Hpa Hd) as [c1 [Hd1 E1]]. rewrite E1.
+      exists c1. split; [assumption|].
+      destruct (peval G names sw steady a U) as [A| | |]; cbn; try reflexivity;
+        destruct (hctl_var_id G x); reflexivity.
+    + (* exists *)
+      set (c0 := set_free c (sinsert x None (free_doms c))).
+      destruct (IH U c0 Hpa Hd) as [c1 [Hd1 E1]]. rewrite E1.
+      exists (set_free c1 (aremove str_eqb x (free_doms c1))). split; [assumption|].
+      destruct (peval G names sw steady a U) as [A| | |]; cbn; try reflexivity;
+        destruct (hctl_var_id G x); reflexivity.
+    + (* forall *)
+      set (c0 := set_free c (sinsert x None (free_doms c))).
+      destruct (IH U c0 Hpa Hd) as [c1 [Hd1 E1]]. rewrite E1.
+      exists (set_free c1 (aremove str_eqb x (free_doms c1))). split; [assumption|].
+      destruct (peval G names sw steady a U) as [A| | |]; cbn; try reflexivity;
+        destruct (hctl_var_id G x); reflexivity.
+Qed.
+End Link.
